@@ -23,7 +23,7 @@ full["changes"] = len(out)
 def ok(r):
     meta = json.load(open(os.path.join(V, "seeded", r["id"], "meta.json")))
     neutral = "-led-to-" in r["id"] or "-neutralised-" in r["id"]
-    return (not r.get("caught")) if neutral else (bool(r.get("caught")) or bool(meta.get("rare")))
+    return (not r.get("caught")) if neutral else (bool(r.get("caught")) or bool(meta.get("rare")) or bool(meta.get("uncovered")))
 full["not_as_expected"] = sum(0 if ok(r) else 1 for r in out)
 json.dump(full, open(os.path.join(V, "selftest", "seeded.json"), "w"), indent=1, sort_keys=True)
 print("merged: %d changes, %d not as expected" % (full["changes"], full["not_as_expected"]))
